@@ -392,7 +392,7 @@ REQ_METHODS = ["textDocument/hover", "textDocument/completion", "textDocument/si
                "textDocument/documentSymbol", "textDocument/codeAction", "initialize", "shutdown"]
 
 
-def gen_conversation(rng, nmsgs, uris=("file:///a.sql", "file:///b é😀.sql")):
+def gen_conversation(rng, nmsgs, uris=("file:///a.sql", "file:///b é😀.sql"), allow_exit=True):
     c = Conv()
     docs = {}       # uri -> current text per the client's own view (strict reading)
     version = {}
@@ -490,7 +490,7 @@ def gen_conversation(rng, nmsgs, uris=("file:///a.sql", "file:///b é😀.sql"))
                 # an id that is present but null: a request, answered with id null
                 c.null_used = True
                 c.add(rng.choice(['{"jsonrpc":"2.0","id":null,"method":"foo"}', '{"jsonrpc":"2.0","id":null,"method":"shutdown"}']), kind="request", id=None, method="foo")
-    if rng.random() < 0.3:
+    if allow_exit and rng.random() < 0.3:
         c.req("shutdown")
         c.notif("exit")
         c.req("textDocument/hover", {"textDocument": {"uri": uris[0]}, "position": {"line": 0, "character": 0}})
@@ -696,11 +696,16 @@ def run(tier):
     convs = []
     for i in range(90 if quick else 600):
         convs.append(gen_conversation(rng, rng.randint(4, 40 if quick else 90)) + ({"freeze": False, "reset_at": []},))
-    for i in range(1 if quick else 12):
+    for i in range(2 if quick else 12):
         # beyond the limiter window, deterministically (frozen window, forced restarts)
         n = rng.randint(110, 140) if quick else rng.randint(120, 260)
-        resets = sorted(rng.sample(range(1, n), rng.randint(0, 2)))
-        convs.append(gen_conversation(rng, n) + ({"freeze": True, "reset_at": resets},))
+        resets = sorted(rng.sample(range(1, n), rng.randint(0, 2))) if i % 2 else []
+        c, uris = gen_conversation(rng, n, allow_exit=False)
+        # requests of every kind at the very end: dropped by the limiter unless a restart is near
+        c.req("shutdown"); c.req("foo/bar"); c.req("textDocument/hover", {"textDocument": {"uri": uris[0]}, "position": {"line": 0, "character": 0}})
+        c.notif("textDocument/didSave", {"textDocument": {"uri": uris[0]}}, uri=uris[0], op="save")
+        c.req("initialize", {"capabilities": {}})
+        convs.append((c, uris, {"freeze": True, "reset_at": resets}))
     inp = "".join(json.dumps(dict(frames=[hx(frame(m["body"])) for m in c.msgs], uris=uris, **opt)) + "\n" for c, uris, opt in convs)
     p = common.vh(["lspserve"], input=inp, timeout=1800)
     cr = [json.loads(l) for l in p.stdout.splitlines() if l.strip()]
